@@ -218,11 +218,11 @@ def close(a, b, tol=1e-9):
 
 
 # ---------------------------------------------------------------- path helpers
-def run_paths(fn, assumptions=(), max_paths=100000, np_facade=None, extra_globals=None, prefix='', feas_timeout_ms=10000):
+def run_paths(fn, assumptions=(), max_paths=100000, np_facade=None, extra_globals=None, prefix='', feas_timeout_ms=10000, truncate=False):
     """explore fn() under the facade; returns (paths, stats)"""
     assumptions = [a.n if isinstance(a, SB) else a for a in assumptions]
     with facade.patched(np_facade, extra_globals):
-        return explore.explore(fn, assumptions, max_paths=max_paths, prefix=prefix, timeout_ms=feas_timeout_ms)
+        return explore.explore(fn, assumptions, max_paths=max_paths, prefix=prefix, timeout_ms=feas_timeout_ms, truncate=truncate)
 
 
 def payload_cx(model, arrs, **kw):
